@@ -122,6 +122,41 @@ def sweep(C, tier):
 
 
 
+def suffixes(C):
+    """MC_Suffix: which names are autoescaped under which suffix configuration (default included, set before and after the
+    templates are added); observed on the registry projection, on every frame of the traced render and in the output."""
+    r = vp.tlc("MC_Suffix", "MC_Suffix", workers=2, timeout=300, name="c01-suffix")
+    C.add_tlc(r, "MC_Suffix (name suffix rule)")
+    seen, jobs, meta = set(), [], []
+    for v in r.tags["VEC"]:
+        name, cfg = "".join(v["n"]), ["".join(x) for x in v["cfg"]]
+        if (name, tuple(cfg)) in seen:
+            continue
+        seen.add((name, tuple(cfg)))
+        tpls = [[name, "{{ v }}"]]
+        variants = [({"autoescape": cfg}, [{"op": "add", "tpls": tpls}]),                                              # configured first
+                    ({"autoescape": [".zz"]}, [{"op": "add", "tpls": tpls}, {"op": "autoescape", "suffixes": cfg}])]      # reconfigured afterwards
+        if v["default"]:
+            variants.append(({}, [{"op": "add", "tpls": tpls}]))                                                        # nothing configured
+        for c, steps in variants:
+            jobs.append({"cfg": c, "ctx": {"v": "<"}, "steps": steps + [{"op": "state"}, {"op": "render", "name": name, "expect_ae": v["ae"]}]})
+            meta.append((name, cfg, v["ae"], len(steps)))
+    res = vp.traced(jobs, C, "c01-suffix")
+    for (name, cfg, ae, k), rr, job in zip(meta, res, jobs):
+        C.count()
+        C.nontrivial(["suffix", name, cfg, k])
+        key = {"kind": "suffix", "name": name, "suffixes": cfg}
+        if any(x.get("panic") or x.get("abort") for x in rr) or not all(x.get("ok") for x in rr):
+            C.violation(dict(key, kind="suffix-error"), "error/panic with template name %r and suffixes %s: %s" % (name, cfg, [x for x in rr if not x.get("ok")][:1]), {"job": job})
+            continue
+        st = {t["name"]: t for t in rr[k]["state"]["templates"]}
+        got = rr[k + 1].get("out")
+        if st[name].get("ae") != ae or got != ("&lt;" if ae else "<"):
+            C.violation(key, "template %r with autoescape suffixes %s (%s): flag %s, `{{ v }}` writes %r; the name %s with one of the suffixes" % (
+                name, cfg, "set before adding" if k == 1 and "autoescape" in job["cfg"] and job["cfg"]["autoescape"] == cfg else "set afterwards / default", st[name].get("ae"), got,
+                "ends" if ae else "does not end"), {"job": job})
+
+
 def run(tier):
     C = vp.Check("C01", tier, "model_checking")
     C.cov["rule"] = ("every complete program of <= MaxTok tokens over the escape alphabet x {autoescape on, off, on with a bound x}; "
@@ -130,6 +165,7 @@ def run(tier):
     if tier == "thorough":
         n += render_check.run_theme(C, "escape", 8, traced=True, simulate=4000, depth=12, workers=1, tag="render-sim-escape", also_str=True)
     C.cov["sweep_renders"] = sweep(C, tier)
+    suffixes(C)
     C.cov["programs"] = n
     C.cov["exhaustive"] = True
     C.assumptions += ["user contexts contain no pre-made safe strings", "all templates taking part in a render share the autoescape mode (suffix)",
